@@ -18,3 +18,13 @@ Proof. intros d H. unfold is_digit, digit_char. lia. Qed.
 
 Lemma is_digit_spec : forall c, is_digit c = true <-> (48 <= c <= 57)%N.
 Proof. intros c. unfold is_digit. lia. Qed.
+
+Lemma split_fast_acc_eq : forall sep s cur, split_fast_acc sep s cur = split_on_acc sep s cur.
+Proof.
+  intros sep s. induction s as [|c s IH]; intro cur; cbn [split_fast_acc split_on_acc].
+  - rewrite rev_append_rev, app_nil_r. reflexivity.
+  - destruct (c =? sep)%N; rewrite IH; [rewrite rev_append_rev, app_nil_r|]; reflexivity.
+Qed.
+
+Lemma split_fast_eq : forall sep s, split_fast sep s = split_on sep s.
+Proof. intros sep s. apply split_fast_acc_eq. Qed.
